@@ -72,6 +72,9 @@ MUTANTS = [
     ("call-args-right-to-left", C,
      "                self._compile_expression(node.callee)\n                for arg in node.arguments:\n                    self._compile_expression(arg)\n                self._emit(OpCode.CALL, len(node.arguments))",
      "                self._compile_expression(node.callee)\n                for arg in node.arguments[:2][::-1] + node.arguments[2:]:\n                    self._compile_expression(arg)\n                if len(node.arguments) >= 2:\n                    self._emit(OpCode.SWAP)\n                self._emit(OpCode.CALL, len(node.arguments))"),
+    ("finally-exit-keeps-exception", C,
+     "            elif target is not None:\n                for _ in range(scope.stack_slots):",
+     "            elif target is not None and not isinstance(scope, PendingValueContext):\n                for _ in range(scope.stack_slots):"),
     ("NEUTRAL-poll-interval", V, "self.instruction_count % 1000 == 0", "self.instruction_count % 500 == 0"),
 ]
 
@@ -110,6 +113,12 @@ def main():
             print(name, "| tests:", tests, "| exit", r.returncode, "|", (rec["first"] or "")[:150])
         finally:
             shutil.rmtree(d, ignore_errors=True)
+    if only:
+        path = os.path.join(ROOT, "sensitivity", "C05.json")
+        if os.path.exists(path):
+            doc = json.load(open(path))
+            doc["results"] = [r for r in doc["results"] if r["mutant"] not in only] + results
+            json.dump(doc, open(path, "w"), indent=1)
     if not only:
         with open(os.path.join(ROOT, "sensitivity", "C05.json"), "w") as fh:
             json.dump({"property": "C05", "base": "repo HEAD + proposed_fixes/C05-01..13", "tier": "quick", "date": time.strftime("%Y-%m-%d"), "results": results}, fh, indent=1)
